@@ -33,3 +33,8 @@ CHECKS = {
         level_note="Trusted: rapid and the soundness argument for each predicate (DESIGN.md §4 C03).",
         design_ref="DESIGN.md §4 C03", assumptions=STRAT_ASSUME),
 }
+
+# entries integrated from builder groups live in bin/checks.d/*.py
+import glob as _glob, os as _os
+for _f in sorted(_glob.glob(_os.path.join(_os.path.dirname(_os.path.abspath(__file__)), "checks.d", "*.py"))):
+    exec(open(_f).read())
